@@ -5189,7 +5189,10 @@ def elemwise(op, *args, out=None, where=True, dtype=None, name=None, **kwargs):
         )
 
     if not name:
-        name = f"{funcname(op)}-{tokenize(op, dtype, *args, where)}"
+        # with a mask, the elements of ``out`` that are not selected are part of
+        # the result
+        token_out = out if where is not True else None
+        name = f"{funcname(op)}-{tokenize(op, dtype, *args, where, token_out)}"
 
     blockwise_kwargs = dict(dtype=dtype, name=name, token=funcname(op).strip("_"))
 
